@@ -127,16 +127,18 @@ func checkC01(c *Check) {
 			leafCert = "crypto/x509.ParseCertificate(" + chainField + "[0])"
 			compact := `strings.Join([[]string: recv.base.Protected, recv.base.Payload, recv.base.Signature], ".")`
 			parse := "(*github.com/golang-jwt/jwt/v4.Parser).Parse(*, " + compact + ", closure{ret " + leafCert + "#0.PublicKey nil})"
-			c.mustPass(pg, "O-C01.1", "JWS: signature check succeeded", "Verify returns content", ok, AG("+IsNil("+parse+"#1)"))
+			// the package-level jwt.Parse(token, keyFunc, options...) is the same call without a parser value
+			parsePkg := "github.com/golang-jwt/jwt/v4.Parse(" + compact + ", closure{ret " + leafCert + "#0.PublicKey nil}**)"
+			c.mustPass(pg, "O-C01.1", "JWS: signature check succeeded", "Verify returns content", ok, AnyOf(AG("+IsNil("+parse+"#1)"), AG("+IsNil("+parsePkg+"#1)")))
 			// exactly one Parse call site, with exactly these operands
 			n := 0
 			var bad []string
 			for _, s := range pg.States {
 				for _, e := range s.Out {
 					for _, l := range e.Labels {
-						if l.Kind == "call" && l.T != nil && strings.HasSuffix(l.T.Name, "jwt/v4.Parser).Parse") {
+						if l.Kind == "call" && l.T != nil && (strings.HasSuffix(l.T.Name, "jwt/v4.Parser).Parse") || strings.HasSuffix(l.T.Name, "jwt/v4.Parse")) {
 							n++
-							if !globMatch(parse, l.Key) {
+							if !globMatch(parse, l.Key) && !globMatch(parsePkg, l.Key) {
 								bad = append(bad, c.P.pos(l.Node.Pos)+": "+l.Key)
 							}
 						}
